@@ -154,6 +154,6 @@ fn check(c: &SummaryCase, obs: &mut Obs) -> Verdict {
 pub fn def() -> PropDef {
     let mut d = PropDef::new("C10", "error-free generated histories (ledger generator and window scenarios: 1-3 securities, several affiliates incl. registered, splits, loss sales) x a cut date at every interesting position (on / one day before / after any settlement date, +-29/30/31 days around it, before the first and after the last row) x {simple, annual}; 'today' = 100 days after the last row. Round trip through text: summary rows -> write_txs_to_csv -> [summary.csv, original rows settling after the cut] -> second run. The second run must succeed and show, for every later row, the same gain, superficial loss, share balance, ACB and automatic adjustments (1e-9), the same final holdings and ACB per affiliate, and (annual) the same net gain per year and affiliate for the summarised period. Non-trivial = a loss sale or an acquisition within 30 days of the cut. Distinct = distinct case content.");
     d.assumptions = vec!["split rows of affiliates that hold nothing are ignored on both sides", "known findings are keyed on root-cause predicates over the full run's ledger and the cut (K1/K2/K3), not on symptoms"];
-    d.subs.push(Box::new(Sub::<SummaryCase> { name: "roundtrip", cases_quick: 75_000, cases_thorough: 600_000, strategy: Box::new(strategy), to_json: SummaryCase::to_json, from_json: SummaryCase::from_json, check }));
+    d.subs.push(Box::new(Sub::<SummaryCase> { name: "roundtrip", cases_quick: 75_000, cases_thorough: 1_500_000, strategy: Box::new(strategy), to_json: SummaryCase::to_json, from_json: SummaryCase::from_json, check }));
     d
 }
